@@ -1,0 +1,21 @@
+//go:build verif
+
+package storage
+
+import "sync/atomic"
+
+var verifHookFn atomic.Value // func(string)
+
+// VerifSetHook installs (or, with nil, removes) the callback invoked at verification yield points.
+func VerifSetHook(f func(string)) {
+	if f == nil {
+		f = func(string) {}
+	}
+	verifHookFn.Store(f)
+}
+
+func verifHook(point string) {
+	if f, ok := verifHookFn.Load().(func(string)); ok && f != nil {
+		f(point)
+	}
+}
